@@ -10,7 +10,7 @@ RULE = ("a recording probe helper (dumps params / hash / block metadata as JSON,
         "expression, a block and a subexpression with arity 0..6 and hash size 0..4; arguments: JSON literals of depth ≤ 3 "
         "(strings over an alphabet with quotes, backslashes, braces, unicode and control escapes in both quote styles; "
         "integers across the i64/u64 range; decimals with ≤ 15 significant digits; exponent forms), paths (present and "
-        "missing), subexpressions nested ≤ 4 (lookup / eq / probe itself); block parameters 'as |a b|'; oracle = the values "
+        "missing), subexpressions nested ≤ 4 (lookup / eq / probe itself); block parameters 'as |a b|'; the same after a decorator replaced the render context; oracle = the values "
         "denoted, computed by the generator; exactly one dump per tag evaluation; non-trivial = at least one literal or "
         "subexpression argument; distinct by argument list")
 DEFINITE_FLOOR = 0.9
@@ -190,7 +190,12 @@ def gen_case(rng, i):
             args = [("1", {"v": 1, "r": None, "m": False})]
     exp = {"n": "pr", "p": [e for _, e in args], "h": {k: e for k, (_, e) in hargs}, "b": form in ("block", "chain"),
            "t": form in ("block", "chain"), "i": form in ("block", "chain") and "{{else}}" in tpl, "bp": bp}
-    cfg = {"escape": "none", "helpers": [{"name": "pr", "kind": "probe"}, {"name": "id", "kind": "vret"}]}
+    cfg = {"escape": "none", "helpers": [{"name": "pr", "kind": "probe"}, {"name": "id", "kind": "vret"}],
+           "decorators": [{"name": "sc", "kind": "setctx"}]}
+    if rng.chance(0.2):
+        # after a decorator replaced the render context (by the same data): arguments are resolved against the replacement –
+        # present values, explicit nulls included, stay present; paths that designate nothing stay missing
+        tpl = "{{*sc this}}" + tpl
     case = session(cfg, [], {"api": "render_template", "src": tpl}, DATA)
     return case, {"expect": exp, "form": form, "tpl": tpl}
 
